@@ -14,15 +14,19 @@ def main(ctx):
         "wrap sets passed to parens(); compound-assignment sugar; taco_tensor_t layout vs LLVM struct + GEP indexes (LP64); "
         "allocation size width; identifiers provided by the header; hoisting totality. Engine K: every emitted kernel of the "
         "family is well-typed inside the operand-type cases the LLVM printer implements (read from its source), has one "
-        "declared type per name, valid C scoping, no bare expression statements."
+        "declared type per name, valid C scoping, no bare expression statements, no int operand inside double arithmetic; no live "
+        "variable is shadowed (C block scope == LLVM one-slot-per-name); the text the LLVM printer emits for the three-kernel "
+        "module is accepted by LLVM's parser and verifier (static check of the emitted artifact; nothing is compiled or run)."
     )
     ctx.assumptions = FAMILY_ASSUMPTIONS + [
         "bit-identical results of gcc vs LLVM JIT and acceptance by the real tool chains are NOT decided (would require running them)",
         "LP64 ABI sizes/alignments; C operator precedence table; LLVM opcode semantics table in vf/srules/backends.py",
     ]
     backends.run(ctx)
-    sweep(ctx, ["typing.kernel_typing"])
+    sweep(ctx, ["typing.kernel_typing", "typing.no_shadowing", "typing.llvm_verifies"])
     ctx.rule("C06.kernel-typing", min_instances=1500)
+    ctx.rule("C06.no-shadowing", min_instances=1500)
+    ctx.rule("C06.llvm-verifies", min_instances=1500)
 
 
 if __name__ == "__main__":
